@@ -60,6 +60,8 @@ BASES = {
     "means_cat_x_cat": (S.schema2("means_cat_x_cat", A2, B3, numeric=dict(MEANS)), (1,), (None, 1, 3, 4),
                         [(None, None), (rsub, csub)], 2, 3, (1,)),
 }
+# row items whose missingness differs from one another, reduced alphabet, 4-5 events
+BASES["mr_x_mr_ov_deep"] = (S.schema2("mr_x_mr_ov_deep", N2, M2, overlaps=True), (1,), (None,), [(None, None)], 4, 5, (1,))
 SCHEMAS = {k: v[0] for k, v in BASES.items()}
 PROFILES = {}
 for _k, _v in BASES.items():
@@ -68,6 +70,8 @@ for _k, _v in BASES.items():
 
 
 def _cfgs(name):
+    if name == "mr_x_mr_ov_deep":
+        return [(0, 1, 0), (0, 3, 0), (0, 4, 2)]
     out = []
     ins = BASES[name][3]
     mr_cols = BASES[name][0].vars[1].kind == "MR"
@@ -80,6 +84,8 @@ def _cfgs(name):
     return out
 
 
+PROFILES["mr_x_mr_ov_deep"] = [(((n, m), 1, None), 1) for n in ((1, 0), (0, 1), (1, -1), (-1, 1), (1, 1))
+                               for m in ((1, 0), (0, 1), (1, 1))]
 CONFIGS = {k: _cfgs(k) for k in BASES}
 
 
